@@ -26,6 +26,7 @@ ASSUMPTIONS = [
     "std::stoll = strtoll in the C locale: blanks, optional sign, digit run; ERANGE beyond int64",
 ]
 TRUSTED = ["libstdc++ std::string / std::string_view / std::stoll semantics (modelled, not verified)",
+           "Drive/Uri.lean: parsing of transcript lines into the typed observations of Spec/Uri.lean (toOutcome, toGai; no property clause)",
            "pre-fix regex dissection harness/legacy/legacy_uri.h as second oracle for inputs <= 2000 bytes"]
 ALL_TAGS = ["op.uri", "op.pair", "op.ladder", "uri", "pair", "ok", "throw.invalid_argument", "throw.logic_error", "throw.out_of_range",
             "throw.runtime_error", "throw.system_error", "gai", "gai.numericserv", "legacy.match", "legacy.nomatch",
@@ -171,7 +172,7 @@ def gen(rng, tier):
     return cases
 
 
-TECHNIQUE = "Lean 4 theorems (totality/classification and slice bounds of the URI dissection for all byte strings) + model/implementation correspondence incl. small-stack length ladders and a differential regex oracle"
+TECHNIQUE = "Lean 4 theorems (totality/classification and slice bounds of the URI dissection for all byte strings; the run-time oracle Spec/Uri.lean accepts every trace of the model over an arbitrary name service: spec_holds_on_model) + model/implementation correspondence incl. small-stack length ladders and a differential regex oracle"
 LEVEL_TEXT = ("Machine-checked Lean 4 theorems about an executable model of UriDissect / ParseUri / ParseHostServ over arbitrary byte "
               "strings: every input ends in a value or in one of the named std::exception classes (invalid_argument only for empty "
               "input; std::stoll can never report 'no conversion'), every slice (host, service) is a contiguous part of the input, "
@@ -184,7 +185,11 @@ LEVEL_TEXT = ("Machine-checked Lean 4 theorems about an executable model of UriD
               "and length ladders to 10^5 / 10^7 run on the real constructors on 64-128 KiB thread stacks (ladders in forked children, "
               "-O2 -DNDEBUG and ASan builds); outcome class and the intercepted getaddrinfo arguments are compared with the model, the "
               "pre-fix std::regex dissection with the model's, and 'value or std::exception, no crash/signal/hang' is evaluated on the "
-              "observations.")
+              "observations by the typed total predicate Spec/Uri.lean (specStep/specRun, mode totality; the driver only parses lines "
+              "into Obs and calls it). spec_holds_on_model (Props/C11.lean): for EVERY name service (getaddrinfo / getnameinfo may answer "
+              "anything) and every history of uri / pair constructions and literal / service-name groups of any length over arbitrary "
+              "byte strings that predicate accepts the trace of the model (parseUri / parseHostServ + the name service) - no hypothesis; "
+              "so a spec verdict is a difference between implementation and model and the oracle is never stricter than the model.")
 LEVEL_NOTE = ("Trusted: Lean kernel; axioms propext/Quot.sound/Classical.choice; hand-written model (correspondence on generated inputs "
               "only); harness, vos getaddrinfo shim. Stack use / memory safety of the C++ scans and of glibc/libstdc++ internals is "
               "covered by the small-stack and sanitizer runs (testing), not by a theorem.")
